@@ -152,8 +152,8 @@ def run(tier: str, seed: int, replay=None) -> int:
               "get_cost(name), cost_specification := A|B|{a:A,b:B}, forward, train(), eval(), update_softmax_options(one option), "
               "PIT train_features / train_rf / train_dilation / discrete_cost := v}).  The sequences are walks from initial states "
               "that cover EVERY edge of the two state graphs (modes half, options half) TLC computes to closure for ObserversMC "
-              "per kind, executed on real models (thorough: each variant x full_cost on/off gets a complete edge cover of both "
-              "halves; quick: one complete cover per kind and half, variant and full_cost alternating over its walks); plus seeded random sequences mixing all calls on further "
+              "per kind, executed on real models (thorough: a complete edge cover per variant x full_cost in the modes half and per "
+              "variant in the options half; quick: one complete cover per kind and half, variant and full_cost alternating over its walks); plus seeded random sequences mixing all calls on further "
               "variants.  Every scenario is executed twice (with and without its observer calls).  Non-trivial = the sequence "
               "contains an observer call that is followed by a later call.")
     R.assumptions = [
@@ -222,9 +222,15 @@ def run(tier: str, seed: int, replay=None) -> int:
             # 2. spec -> code: complete edge covers.  thorough: one per (variant, full_cost); quick: full_cost alternates
             #    over the variants (modes half; SuperNet, one variant: both) / one cover per variant, full_cost alternating
             #    (options half)
-            # thorough: a complete edge cover per (variant, full_cost); quick: ONE complete cover per kind and half, the
-            # variant and full_cost alternating over its walks
-            plans = [(v, fc) for v in variants[kind] for fc in (False, True)] if not quick else [(None, None)]
+            # thorough: a complete edge cover per (variant, full_cost) in the modes half, per variant (full_cost alternating
+            # over the walks) in the options half; quick: ONE complete cover per kind and half, the variant and full_cost
+            # alternating over its walks
+            if quick:
+                plans = [(None, None)]
+            elif half == "modes":
+                plans = [(v, fc) for v in variants[kind] for fc in (False, True)]
+            else:
+                plans = [(v, None) for v in variants[kind]]     # options half: full_cost alternates over the walks
             for variant0, fc0 in plans:
                     walks = _covering_walks(nodes, edges, init, maxlen, random.Random(seed * 7919 + len(scen)))
                     covered = set()
